@@ -58,6 +58,8 @@ type fileAPI interface {
 	Sync() error
 	Stat() (fs.FileInfo, error)
 	WriteString(s string) (int, error)
+	ReadAt(b []byte, off int64) (int, error)
+	WriteAt(b []byte, off int64) (int, error)
 }
 
 type fsAPI struct {
@@ -120,7 +122,7 @@ func fidStep0(api *fsAPI, tp *simrt.Tape, open map[int]fileAPI, names *string) s
 		n := pick(tp, 0, 1, 10, 100, 5000)
 		return []byte(strings.Repeat(string(rune('a'+tp.Draw(simrt.SGen, 26))), n))
 	}
-	switch tp.Draw(simrt.SGen, 16) {
+	switch tp.Draw(simrt.SGen, 18) {
 	case 0:
 		return "mkdir " + errClassOf(api.mkdir(p(), 0o755))
 	case 1:
@@ -203,6 +205,27 @@ func fidStep0(api *fsAPI, tp *simrt.Tape, open map[int]fileAPI, names *string) s
 			return fmt.Sprintf("seek %d %s", pos, errClassOf(err))
 		}
 		return "seek none"
+	case 15:
+		slot := tp.Draw(simrt.SGen, 3)
+		off, sz := int64(pick(tp, 0, 2, 100)), pick(tp, 1, 7, 4096)
+		if f := open[slot]; f != nil {
+			buf := make([]byte, sz)
+			n, err := f.ReadAt(buf, off)
+			return fmt.Sprintf("readat %d %s %.10s", n, errClassOf(err), buf[:n])
+		}
+		return "readat none"
+	case 16:
+		slot := tp.Draw(simrt.SGen, 3)
+		off := int64(pick(tp, 0, 2, 100))
+		d := data()
+		if f := open[slot]; f != nil {
+			n, err := f.WriteAt(d, off)
+			if err != nil && strings.Contains(err.Error(), "O_APPEND") {
+				return fmt.Sprintf("writeat %d append-handle", n)
+			}
+			return fmt.Sprintf("writeat %d %s", n, errClassOf(err))
+		}
+		return "writeat none"
 	default:
 		slot := tp.Draw(simrt.SGen, 3)
 		if f := open[slot]; f != nil {
